@@ -1,5 +1,6 @@
 """C16 — parsing untrusted text succeeds or fails with a declared error, and terminates."""
 import math
+import re
 import time
 
 from harness import common, layera as A, schemes as S, textcommon as T, scheme_corr as SC
@@ -144,8 +145,20 @@ def _fuzz(ctx):
         for i in range(per):
             base = seeds_for(rng, label, scheme)
             r = rng.random()
-            if r < 0.3:
+            if r < 0.22:
                 s = base
+            elif r < 0.30:
+                # a numeric run longer than Python's int() text limit, or a non-ASCII "digit"
+                runs = [m.span() for m in re.finditer(r"[0-9]+", base)]
+                if runs:
+                    a, b = rng.choice(runs)
+                    if rng.random() < 0.5:
+                        s = base[:a] + str(rng.randint(1, 9)) * rng.choice([4300, 4301, 5000]) + base[b:]
+                    else:
+                        j = rng.randint(a, b)
+                        s = base[:j] + rng.choice(["\u00b2", "\u0663", "\uff11", "\u2167", "\u00bd", "\u2460", "\u0e53"]) + base[j:]
+                else:
+                    s = base + "1" * 4301
             elif r < 0.8:
                 s = base
                 for _ in range(rng.randint(1, 4)):
